@@ -64,6 +64,23 @@ class Obj:
         return '<{} object>'.format(self.cls.name)
 
 
+class WideByteStore(CxError):
+    """a symbolic value with live bits above bit 7 is stored as a byte: for
+    the contents that set one of them Python raises ValueError"""
+
+    def __init__(self, bv):
+        super().__init__('a value wider than 8 bits is stored as a byte: '
+                         '{}'.format(bv))
+        self.bv = bv
+
+    def sources(self):
+        out = set()
+        for c in self.bv.cells[8:]:
+            for v in (c.vars if c is not None else ()):
+                out.add(v[0][0] if isinstance(v[0], tuple) else v[0])
+        return out
+
+
 class CondDesc(tuple):
     """description of a symbolic decision that also carries the value that
     was tested (rules can reason under the path condition)"""
@@ -477,6 +494,7 @@ class Cx:
         self.assumed = []
         self.depth = 0
         self.hooks = {}            # function qual -> python callable
+        self.narrowed = []         # range assertions that dropped live bits
         self.ext_hooks = {}        # external dotted name -> python callable
         # constants of external modules (POSIX conventions, as on the
         # systems picotool's path handling is written for)
@@ -502,6 +520,7 @@ class Cx:
             self.dpos = 0
             self.conds = []
             self.assumed = []
+            self.narrowed = []
             self.steps = 0
             self.sym_memo = {}
             try:
@@ -782,8 +801,7 @@ class Cx:
                     raise PyRaise('ValueError', ('byte out of range',))
             elif isinstance(x, BV):
                 if x.width > 8:
-                    raise CxError('a value wider than 8 bits is stored as a '
-                                  'byte: {}'.format(x))
+                    raise WideByteStore(x)
             elif isinstance(x, (HexCh, SymCh, SymDictVal)):
                 pass
             elif isinstance(x, SymSel) and all(
@@ -1210,6 +1228,21 @@ class Cx:
                 if lo <= 0 and top >= 0 and (top + 1) & top == 0 and \
                         isinstance(t.comparators[0], ast.Name):
                     k = top.bit_length()
+                    dropped = [c for c in mid.cells[k:]
+                               if c is None or not (c.is_const() and
+                                                    c.const() == 0)]
+                    if dropped:
+                        # bits above the asserted range that are not known
+                        # to be 0: which sources they come from decides
+                        # whether this is an assumption about an argument or
+                        # an assertion the code can fail by itself
+                        srcs = set()
+                        for c in dropped:
+                            for v in (c.vars if c is not None else ()):
+                                srcs.add(v[0][0] if isinstance(v[0], tuple)
+                                         else v[0])
+                        self.narrowed.append((ast.unparse(t), sorted(
+                            map(str, srcs))))
                     fr.env[t.comparators[0].id] = _norm(
                         BV(mid.cells[:k] or [ZERO]))
                 return
